@@ -1,5 +1,6 @@
 import RedisVerif.Driver.Codec
 import RedisVerif.Model.Stream
+import RedisVerif.Model.StreamActor
 
 /-
   C12 / C13 sub-driver (stateful): one process (`StreamingPersistence` + `Compactor`) on an
@@ -10,7 +11,10 @@ import RedisVerif.Model.Stream
                                                           | err pending=<n> calls=<c>
     COMPACT <target> <min> <maxper> <now> <ttlms> <sz>     → nothing|err|cleaned [ids]|emptied [ids] tombs=<n>|
                                                           compacted [ids] -> <id> n=<k> tombs=<n>   (+ calls=<c>)
+    CIFNEEDED <target> <min> <maxper> <now> <ttlms> <max_segments> <sz> → Compactor::compact_if_needed: as COMPACT
+                                                          (`nothing` = Ok(None): below the threshold or NothingToCompact)
     REC                                                 → recovery of the current store image
+    MAN  (AMAN: the actor's store)                      → every field of the stored manifest: man v= rid= next= chk= segs=[id:count:size:min:max,..]
     INTERLEAVE <target> <min> <maxper> <now> <ttlms> <szc> <szf> → a compaction with one whole flush (of the current
                                                           buffer) between its reads and its writes:
                                                           flush=<..> compact=<..> calls=<c>          (C13)
@@ -18,6 +22,31 @@ import RedisVerif.Model.Stream
     CRASH <c> <0|1>                                     → the recorded workload re-run with the process dying at
                                                           store call c (1: inside a put, leaving a torn object):
                                                           recovery of the store image + refs=<0|1>
+
+  The layer above the writer (M4b, `Model/StreamActor.lean`):
+    XNEW <rid> <intervalNs> <maxSize> <maxDeltas> <backpressure> <cap> <now> <nf> (<idx> <fault>)*   → ok
+    XCAP                                                → PERSISTENCE_CHANNEL_CAPACITY of the model
+    XPUSH <key> <rv> <klen>                             → StreamingPersistence::push: ok|err + pending=<n> bytes=<b>
+    XSHOULD                                             → should_flush(): 0|1
+    XFLUSH <sz>                                         → flush(): as FLUSH, plus bytes=<b>
+    XADV <ms>                                           → the clock advances: ok
+    XWPUSH <key> <rv> <klen> / XWSHOULD / XWFLUSH       → the stand-alone WriteBuffer (push / should_flush / flush)
+    XTICK / XFLUSHQ                                     → one iteration / the final flush of persistence::PersistenceWorker:
+                                                          pending=<n> calls=<c> segs=[..]
+    XWPUSHQ <key> <rv> <klen> / XWTICK <elapsed>        → WriteBuffer::push without looking at the result / one iteration of
+                                                          FlushWorker, DeltaSinkPersistenceWorker: pending=<n> bytes=<b> calls=<c>
+    ASEND <key> <rv> <klen>                             → DeltaSinkSender::send: ok | err disconnected
+    ADRAIN / ATICK / ASTOPBRIDGE / AREQSHUTDOWN         → one event each: ok
+    ARUN                                                → the actor handles messages until its mailbox is empty (or it
+                                                          exits): calls=<c> segs=[id:count,..]     (ARUNQ: → ok)
+    XFAILALL <0|1>                                      → every store call fails (without effect) while set
+    SNEW / SPUT <name> <tag> / SGET <name> / SEXISTS <name> / SHEAD <name> / SDEL <name> / SREN <a> <b> /
+    SLIST <all|seg|chk|none>                            → the object store operations themselves (fault-free)
+    AMISSING                                            → stored=<n> missing=<n> <keys of the updates handed to the sink
+                                                          that are in no confirmed segment, sorted>
+    AREC                                                → recovery of the actor's store image
+    ALEDGER                                             → sent=<n> accepted=<n> acked=<n> pending=<n> inflight=<n>
+                                                          rejected=<n> skipped=<n> dropped=<n>
 -/
 namespace RedisVerif.Driver.C12
 open RedisVerif RedisVerif.Driver RedisVerif.Stream
@@ -33,6 +62,13 @@ structure St where
   rootFaults : List (Nat × Fault)
   rootOps : List Op
   restarted : Bool
+  /-- M4b: configuration, mailbox capacity, faults and state of the actor pipeline -/
+  acfg : StreamActor.WbCfg := default
+  acap : Nat := 0
+  afaults : List (Nat × Fault) := []
+  afailAll : Bool := false
+  act : StreamActor.A := default
+  wb : StreamActor.WB := StreamActor.WB.init
   deriving Inhabited
 
 def init : St := { base := [], rid := 0, faults := [], ops := [], sys := Sys.init [] 0, rootFaults := [], rootOps := [], restarted := false }
@@ -94,7 +130,232 @@ def parseFaults : List String → Option (List (Nat × Fault))
     let r ← parseFaults rest
     pure ((n, ft) :: r)
 
+def allOkO : Oracle := fun _ => .ok
+
+/-- every field of the manifest object in a store -/
+def showManifest (st : Store) : String :=
+  match NMap.get st manifestName with
+  | some (.manifest m) =>
+    let chk := match m.checkpoint with
+      | none => "-"
+      | some c => s!"{c.name}:{c.last}"
+    let segs := ",".intercalate (m.segments.map (fun sg => s!"{sg.id}:{sg.count}:{sg.size}:{sg.minTs}:{sg.maxTs}"))
+    s!"man v={m.version} rid={m.rid} next={m.next} chk={chk} segs=[{segs}]"
+  | some _ => "man unparsable"
+  | none => "man none"
+
+def showSegs (st : Store) : String :=
+  match NMap.get st manifestName with
+  | some (.manifest m) => "[" ++ ",".intercalate (m.segments.map (fun sg => s!"{sg.id}:{sg.count}")) ++ "]"
+  | some _ => "unparsable"
+  | none => "[]"
+
+/-- the actor handles messages until its mailbox is empty or it has exited (fuel = mailbox length) -/
+def actorDrain (F : Oracle) (cfg : StreamActor.WbCfg) (cap : Nat) : Nat → StreamActor.A → StreamActor.A
+  | 0, a => a
+  | n + 1, a =>
+    if a.alive && !a.mailbox.isEmpty then actorDrain F cfg cap n (StreamActor.step F cfg cap a (.actor 0)) else a
+
+def sdelta (line : String) (kw : String) : Option StreamActor.SDelta :=
+  let p : P StreamActor.SDelta := do
+    expect kw
+    let k ← strKey
+    let v ← rv
+    let n ← nat
+    pure ((k, v), n)
+  runP p line
+
+def stepX (s : St) (line : String) : Option (St × String) :=
+  let F : Oracle := if s.afailAll then (fun _ => Fault.fail) else oracleOf s.afaults
+  let ev (e : StreamActor.Ev) : Option (St × String) :=
+    some ({ s with act := StreamActor.step F s.acfg s.acap s.act e }, "ok")
+  match tokens line with
+  | "XNEW" :: r :: a :: b :: c :: d :: e :: f :: nf :: rest =>
+    match r.toNat?, a.toNat?, b.toNat?, c.toNat?, d.toNat?, e.toNat?, f.toNat?, nf.toNat?, parseFaults rest with
+    | some rid, some iv, some ms, some md, some bp, some cap, some now, some n, some fs =>
+      if fs.length = n then
+        some ({ s with rid := rid, acfg := { intervalNs := iv, maxSize := ms, maxDeltas := md, backpressure := bp },
+                       acap := cap, afaults := fs, afailAll := false, act := StreamActor.A.init [] rid now, wb := StreamActor.WB.init }, "ok")
+      else some (s, "bad-op")
+    | _, _, _, _, _, _, _, _, _ => some (s, "bad-op")
+  | ["XCAP"] => some (s, toString StreamActor.channelCapacity)
+  | "XPUSH" :: _ =>
+    match sdelta line "XPUSH" with
+    | some d =>
+      let r := StreamActor.pushX s.acfg s.act.x d
+      let a' : StreamActor.A := { s.act with x := r.1 }
+      some ({ s with act := a' }, s!"{if r.2 then "ok" else "err"} pending={a'.x.p.buffer.length} bytes={a'.x.size}")
+    | none => some (s, "bad-op")
+  | ["XSHOULD"] => some (s, b01 (StreamActor.shouldFlush s.acfg s.act.now s.act.x))
+  | ["XFLUSH", z] =>
+    match z.toNat? with
+    | some sz =>
+      let r := StreamActor.flushX F sz s.act.now s.act.w s.act.x
+      let a' := StreamActor.doFlush F sz s.act
+      let o := match r.2.2 with
+        | .empty => s!"ok empty calls={a'.w.calls}"
+        | .flushed id n => s!"ok seg={id} n={n} pending={a'.x.p.buffer.length} calls={a'.w.calls}"
+        | .error => s!"err pending={a'.x.p.buffer.length} calls={a'.w.calls}"
+      some ({ s with act := a' }, s!"{o} bytes={a'.x.size}")
+    | none => some (s, "bad-op")
+  | ["XTICK"] =>
+    -- one iteration of persistence::PersistenceWorker::run (`if should_flush() { flush() }`) = the Tick arm
+    let a' := StreamActor.maybeFlush F s.acfg 0 s.act
+    some ({ s with act := a' }, s!"pending={a'.x.p.buffer.length} calls={a'.w.calls} segs={showSegs a'.w.store}")
+  | ["XFLUSHQ"] =>
+    let a' := StreamActor.doFlush F 0 s.act
+    some ({ s with act := a' }, s!"pending={a'.x.p.buffer.length} calls={a'.w.calls} segs={showSegs a'.w.store}")
+  | "XWPUSHQ" :: _ =>
+    match sdelta line "XWPUSHQ" with
+    | some d => some ({ s with wb := (StreamActor.wbPush s.acfg s.wb d).1 }, "ok")
+    | none => some (s, "bad-op")
+  | ["XWTICK", e] =>
+    -- one iteration of FlushWorker::run / DeltaSinkPersistenceWorker::run: `if should_flush() { flush() }`
+    match e.toNat? with
+    | some el =>
+      let b := s.wb
+      let should := if b.deltas.isEmpty then false
+                    else decide (b.bytes ≥ s.acfg.maxSize) || decide (b.deltas.length ≥ s.acfg.maxDeltas) || el != 0
+      if should then
+        let r := StreamActor.wbFlush F s.act.w s.wb
+        some ({ s with wb := r.2.1, act := { s.act with w := r.1 } }, s!"pending={r.2.1.deltas.length} bytes={r.2.1.bytes} calls={r.1.calls}")
+      else some (s, s!"pending={b.deltas.length} bytes={b.bytes} calls={s.act.w.calls}")
+    | none => some (s, "bad-op")
+  | ["XADV", m] =>
+    match m.toNat? with
+    | some ms => ev (.advance ms)
+    | none => some (s, "bad-op")
+  | "XWPUSH" :: _ =>
+    match sdelta line "XWPUSH" with
+    | some d =>
+      let r := StreamActor.wbPush s.acfg s.wb d
+      some ({ s with wb := r.1 }, s!"{if r.2 then "ok" else "err"} pending={r.1.deltas.length} bytes={r.1.bytes}")
+    | none => some (s, "bad-op")
+  | ["XWSHOULD", e] =>
+    -- `last_flush.elapsed() >= flush_interval` is real time: the harness passes what it was
+    match e.toNat? with
+    | some el =>
+      let b := s.wb
+      some (s, b01 (if b.deltas.isEmpty then false
+                    else decide (b.bytes ≥ s.acfg.maxSize) || decide (b.deltas.length ≥ s.acfg.maxDeltas) || el != 0))
+    | none => some (s, "bad-op")
+  | ["XWFLUSH"] =>
+    let r := StreamActor.wbFlush F s.act.w s.wb
+    let o := match r.2.2 with
+      | none => "ok none"
+      | some true => s!"ok seg={s.wb.counter}"
+      | some false => "err"
+    some ({ s with wb := r.2.1, act := { s.act with w := r.1 } }, s!"{o} pending={r.2.1.deltas.length} bytes={r.2.1.bytes} calls={r.1.calls}")
+  | "ASEND" :: _ =>
+    match sdelta line "ASEND" with
+    | some d =>
+      some ({ s with act := StreamActor.step F s.acfg s.acap s.act (.send d) }, if s.act.bridge then "ok" else "err disconnected")
+    | none => some (s, "bad-op")
+  | ["ADRAIN"] => ev .drain
+  | ["ATICK"] => ev .bridgeTick
+  | ["ASTOPBRIDGE"] => ev .stopBridge
+  | ["AREQSHUTDOWN"] => ev .reqShutdown
+  | ["ARUN"] =>
+    let a' := actorDrain F s.acfg s.acap (s.act.mailbox.length + 1) s.act
+    some ({ s with act := a' }, s!"calls={a'.w.calls} segs={showSegs a'.w.store}")
+  | ["ARUNQ"] =>
+    some ({ s with act := actorDrain F s.acfg s.acap (s.act.mailbox.length + 1) s.act }, "ok")
+  -- the object store itself (InMemory / LocalFs / harness FaultStore vs `Stream.World`), names as codes,
+  -- contents as tags
+  | ["SNEW"] => some ({ s with act := StreamActor.A.init [] s.rid 0 }, "ok")
+  | ["SPUT", n, t] =>
+    match n.toNat?, t.toNat? with
+    | some n, some t =>
+      let r := s.act.w.put allOkO n (.checkpoint [] t)
+      some ({ s with act := { s.act with w := r.1 } }, "ok")
+    | _, _ => some (s, "bad-op")
+  | ["SGET", n] =>
+    match n.toNat? with
+    | some n =>
+      let r := s.act.w.get allOkO n
+      let o := match r.2 with
+        | .ok (.checkpoint _ t) => s!"ok {t}"
+        | .ok _ => "ok ?"
+        | .err true => "err notfound"
+        | .err false => "err other"
+      some ({ s with act := { s.act with w := r.1 } }, o)
+    | none => some (s, "bad-op")
+  | ["SEXISTS", n] =>
+    match n.toNat? with
+    | some n =>
+      let r := s.act.w.probe allOkO n
+      let o := match r.2 with
+        | .ok b => b01 b
+        | .err _ => "err"
+      some ({ s with act := { s.act with w := r.1 } }, o)
+    | none => some (s, "bad-op")
+  | ["SHEAD", n] =>
+    match n.toNat? with
+    | some n =>
+      let r := s.act.w.head allOkO n
+      let o := match r.2 with
+        | .ok _ => "ok"
+        | .err true => "err notfound"
+        | .err false => "err other"
+      some ({ s with act := { s.act with w := r.1 } }, o)
+    | none => some (s, "bad-op")
+  | ["SDEL", n] =>
+    match n.toNat? with
+    | some n =>
+      let r := s.act.w.delete allOkO n
+      let o := match r.2 with
+        | .ok _ => "ok"
+        | .err _ => "err"
+      some ({ s with act := { s.act with w := r.1 } }, o)
+    | none => some (s, "bad-op")
+  | ["SREN", a, b] =>
+    match a.toNat?, b.toNat? with
+    | some a, some b =>
+      let r := s.act.w.rename allOkO a b
+      let o := match r.2 with
+        | .ok _ => "ok"
+        | .err true => "err notfound"
+        | .err false => "err other"
+      some ({ s with act := { s.act with w := r.1 } }, o)
+    | _, _ => some (s, "bad-op")
+  | ["SLIST", cls] =>
+    let r := s.act.w.list allOkO
+    let keep (n : Nat) : Bool :=
+      match cls with
+      | "seg" => n ≥ 2 && n % 2 == 0
+      | "chk" => n ≥ 3 && n % 2 == 1
+      | "none" => false
+      | _ => true
+    let o := match r.2 with
+      | .ok ks => "[" ++ ",".intercalate ((ks.filter keep).map toString) ++ "]"
+      | .err _ => "err"
+    some ({ s with act := { s.act with w := r.1 } }, o)
+  | ["XFAILALL", b] => some ({ s with afailAll := b != "0" }, "ok")
+  | ["AMISSING"] =>
+    -- everything handed to the sink that is in no confirmed segment, by key
+    let a := s.act
+    let lost := StreamActor.inFlight a ++ a.rejected ++ a.skipped ++ a.dropped
+    let keys := sortStr (lost.map (fun d => showKey d.1))
+    some (s, s!"stored={a.acked.length} missing={keys.length} {" ".intercalate keys}")
+  | ["ACOMPACT", a, b, c, d, d2, ms, e] =>
+    -- a pass of the compaction worker start_workers spawned, on the actor's store
+    match a.toNat?, b.toNat?, c.toNat?, d.toNat?, d2.toNat?, ms.toNat?, e.toNat? with
+    | some target, some mn, some mx, some now, some ttl, some maxSegs, some sz =>
+      let cfg : CompactCfg := { target := target, minSegs := mn, maxPer := mx, now := now, ttlMs := ttl }
+      let r := compactIfNeeded F cfg maxSegs sz s.act.w
+      some ({ s with act := { s.act with w := r.1 } }, s!"calls={r.1.calls} segs={showSegs r.1.store}")
+    | _, _, _, _, _, _, _ => some (s, "bad-op")
+  | ["AREC"] => some (s, showRec (recover s.act.w.store s.rid))
+  | ["AMAN"] => some (s, showManifest s.act.w.store)
+  | ["ALEDGER"] =>
+    let a := s.act
+    some (s, s!"sent={a.sent.length} accepted={a.accepted.length} acked={a.acked.length} pending={a.x.p.buffer.length} inflight={(StreamActor.inFlight a).length} rejected={a.rejected.length} skipped={a.skipped.length} dropped={a.dropped.length}")
+  | _ => none
+
 def step (s : St) (line : String) : St × String :=
+  match stepX s line with
+  | some r => r
+  | none =>
   match tokens line with
   | "NEW" :: r :: nf :: rest =>
     match r.toNat?, nf.toNat?, parseFaults rest with
@@ -123,6 +384,31 @@ def step (s : St) (line : String) : St × String :=
       let sys' := stepWith current F s.sys (.compact cfg sz)
       ({ s with sys := sys', ops := s.ops ++ [.compact cfg sz], rootOps := if s.restarted then s.rootOps else s.rootOps ++ [.compact cfg sz] }, s!"{showCompact r.2} calls={sys'.w.calls}")
     | _, _, _, _, _, _ => (s, "bad-op")
+  | ["CIFNEEDED", a, b, c, d, d2, ms, e] =>
+    match a.toNat?, b.toNat?, c.toNat?, d.toNat?, d2.toNat?, ms.toNat?, e.toNat? with
+    | some target, some mn, some mx, some now, some ttl, some maxSegs, some sz =>
+      let cfg : CompactCfg := { target := target, minSegs := mn, maxPer := mx, now := now, ttlMs := ttl }
+      let F := oracleOf s.faults
+      let r := compactIfNeeded F cfg maxSegs sz s.sys.w
+      -- not recorded in `ops` (no CRASH re-run over histories with this entry point)
+      ({ s with sys := { s.sys with w := r.1 } }, s!"{showCompact r.2} calls={r.1.calls}")
+    | _, _, _, _, _, _, _ => (s, "bad-op")
+  | ["CNEEDS", ms] =>
+    match ms.toNat? with
+    | some maxSegs =>
+      let r := needsCompaction (oracleOf s.faults) maxSegs s.sys.w
+      let o := match r.2 with
+        | some b => b01 b
+        | none => "err"
+      ({ s with sys := { s.sys with w := r.1 } }, s!"{o} calls={r.1.calls}")
+    | none => (s, "bad-op")
+  | ["CIFNEEDEDQ", a, b, c, d, d2, ms, e] =>
+    match a.toNat?, b.toNat?, c.toNat?, d.toNat?, d2.toNat?, ms.toNat?, e.toNat? with
+    | some target, some mn, some mx, some now, some ttl, some maxSegs, some sz =>
+      let cfg : CompactCfg := { target := target, minSegs := mn, maxPer := mx, now := now, ttlMs := ttl }
+      let r := compactIfNeeded (oracleOf s.faults) cfg maxSegs sz s.sys.w
+      ({ s with sys := { s.sys with w := r.1 } }, s!"calls={r.1.calls}")
+    | _, _, _, _, _, _, _ => (s, "bad-op")
   | ["INTERLEAVE", a, b, c, d, d2, e, f] =>
     match a.toNat?, b.toNat?, c.toNat?, d.toNat?, d2.toNat?, e.toNat?, f.toNat? with
     | some target, some mn, some mx, some now, some ttl, some szc, some szf =>
@@ -140,6 +426,7 @@ def step (s : St) (line : String) : St × String :=
       ({ s with sys := { s.sys with w := r.1, p := p' } }, s!"flush={fo} compact={showCompact r.2.1} calls={r.1.calls}")
     | _, _, _, _, _, _, _ => (s, "bad-op")
   | ["REC"] => (s, showRec (recover s.sys.w.store s.rid))
+  | ["MAN"] => (s, showManifest s.sys.w.store)
   | ["CRASH", a, b] =>
     match a.toNat?, b.toNat? with
     | some c, some p =>
